@@ -12,17 +12,47 @@ def P():
     return packet
 
 
+DEEP_MAX = 64          # the statement says "at any nesting depth": the spine generator goes well beyond any
+#                        depth ordinary trees reach (the Lean theorems recon_decon / roundtrip are for every depth)
+
+
+def gen_deep(rng, depth=None):
+    """A payload argument whose spine of mixed lists/dicts is `depth` containers deep (1..DEEP_MAX) with a bytes
+    leaf at the bottom and further bytes leaves / ordinary small trees hanging off the spine at other depths."""
+    depth = depth or rng.choice([rng.randint(1, DEEP_MAX), rng.randint(1, DEEP_MAX), rng.randint(8, 24), DEEP_MAX])
+    v = G.gen_bytes(rng)
+    side_p = rng.choice([0.0, 0.1, 0.3])
+    for _ in range(depth):
+        sib = []
+        while rng.random() < 0.35 and len(sib) < 3:
+            sib.append(G.gen_bytes(rng) if rng.random() < side_p else G.gen_value(rng, 1, 0.2))
+        if rng.random() < 0.5:
+            items = sib + [v]
+            rng.shuffle(items)
+            v = items
+        else:
+            d = {}
+            keys = rng.sample(['k', 'a', 'data', 'num', 'é', '', 'x y', 'placeholder'], len(sib) + 1)
+            pos = rng.randint(0, len(sib))
+            for i, k in enumerate(keys):
+                d[k] = v if i == pos else sib.pop()
+            v = d
+    return v
+
+
 def gen_packet(rng):
     """Mostly well-formed packets over the property's quantifier; returns kwargs + wf flag."""
     t = rng.choice([0, 1, 2, 2, 2, 3, 3, 4, 5, 6])
     nsp = G.gen_namespace(rng)
     pid = G.gen_id(rng) if t in (2, 3, 5, 6) or rng.random() < 0.3 else None
     wf = True
-    if t in (2, 5):
+    if t in (2, 3, 5, 6):
         args = [G.gen_value(rng, 3, 0.25) for _ in range(rng.randint(0, 3))]
-        data = [G.gen_event_name(rng)] + args
-    elif t in (3, 6):
-        data = [G.gen_value(rng, 3, 0.25) for _ in range(rng.randint(0, 3))]
+        if rng.random() < 0.12:
+            # bytes far below the depth ordinary trees reach, several leaves at different depths
+            for _ in range(rng.choice([1, 1, 2])):
+                args.insert(rng.randint(0, len(args)), gen_deep(rng))
+        data = ([G.gen_event_name(rng)] if t in (2, 5) else []) + args
     elif t == 0:
         data = rng.choice([None, {}, {'token': 'abc'}, {'sid': '123'}]) if rng.random() < 0.7 else \
             G.gen_value(rng, 2, 0.1)
@@ -173,6 +203,19 @@ def jloads_check(drv, text):
     except Exception as ex:    # noqa
         return (False, {'json': rest, 'impl': repr(v), 'model': 'unreadable: %r' % ex})
     return True if C.same(m, v) else (False, {'json': rest, 'impl': repr(v), 'model': repr(m)})
+
+
+def roundtrip_holds(kw, real, atts):
+    """the statement on the implementation alone: decode(encode(p)) + all attachments handed back = norm p"""
+    d = real_decode(real['text'], atts)
+    okp = 'exc' not in d
+    if okp:
+        t, ns, pid, data = d['pkt']
+        okp = (t == real['type'] and norm_ns(ns) == norm_ns(kw['namespace']) and pid == kw['id']
+               and C.same(data, kw['data'])
+               and d['answers'] == [False] * (len(atts) - 1) + ([True] if atts else [])
+               and d['natt'] == len(atts))
+    return okp, d
 
 
 def dec_equal(a, b):
@@ -463,6 +506,7 @@ def run(ctx):
     samples = []
     frames = []      # (text, atts, origin)
     evals = 0
+    n_deep, deepest = 0, 0
     for (kw, wf), ans, sans in zip(cases, answers, spec_answers):
         evals += 1
         real = real_encode(kw)
@@ -504,18 +548,19 @@ def run(ctx):
                               {'case': repr(kw), 'impl': repr(real), 'spec': repr(spec)})
         # ---- property oracle on the implementation alone: decode(encode(p)) = norm p
         if wf:
-            d = real_decode(real['text'], atts)
-            okp = 'exc' not in d
-            if okp:
-                t, ns, pid, data = d['pkt']
-                okp = (t == real['type'] and norm_ns(ns) == norm_ns(kw['namespace']) and pid == kw['id']
-                       and C.same(data, kw['data'])
-                       and d['answers'] == [False] * (len(atts) - 1) + ([True] if atts else [])
-                       and d['natt'] == len(atts))
+            okp, d = roundtrip_holds(kw, real, atts)
+            bd = G.bytes_depth(kw['data'])
+            if bd >= 0:
+                ctx.count('roundtrip.bytes_depth.' + ('1-4' if bd <= 4 else '5-16' if bd <= 16 else
+                                                      '17-32' if bd <= 32 else '33+'))
+            if bd > 4:
+                n_deep += 1
+                deepest = max(deepest, bd)
             if not okp:
-                ctx.violation('oracle', 'decode(encode(p)) != p on the implementation',
-                              {'case': repr(kw), 'text': real['text'], 'atts': [a.hex() for a in atts],
-                               'decoded': repr(d)})
+                ctx.violation('oracle', 'decode(encode(p)) != p on the implementation (deepest byte string at '
+                              'nesting depth %d)' % bd,
+                              {'roundtrip': kw, 'case': repr(kw), 'text': real['text'],
+                               'atts': [a.hex() for a in atts], 'decoded': repr(d)})
             two = sum(x is not None for x in (kw['id'],)) + (norm_ns(kw['namespace']) != '/') + bool(atts)
             if G.bytes_depth(kw['data']) >= 2 or two >= 2:
                 nontrivial.add(real['text'] + '|' + ','.join(a.hex() for a in atts))
@@ -597,6 +642,10 @@ def run(ctx):
                 'distinct well-formed packet with a bytes leaf at depth >= 2 or >= 2 optional header fields',
         'samples': samples, 'traces_validated_against_impl': evals + ndec,
         'spec_codec_comparisons': n_spec, 'json_reader_comparisons': n_jl,
+        'deep_roundtrips': n_deep, 'deepest_bytes_leaf': deepest,
+        'deep_rule': 'deep_roundtrips = well-formed round trips whose deepest byte string lies below more than 4 '
+                     'containers (spine generator: mixed list/dict spines 1..%d deep, extra bytes leaves at other '
+                     'depths); they also go through the model / specification-parser comparisons' % DEEP_MAX,
     })
     ctx.assumptions += ['lone surrogates are not generated (Lean Char cannot hold them)',
                         'non-finite floats are outside the domain']
@@ -614,5 +663,19 @@ def replay(ctx, r):
             print('  step %d (%s): %s' % (p['step'], p['op'], p['what']))
         print('oracle verdict :', 'VIOLATED' if problems else 'holds')
         return 1 if problems else 0
+    if isinstance(rep, dict) and isinstance(rep.get('roundtrip'), dict):
+        kw = C.unjsonable(rep['roundtrip'])
+        print('Packet(%r)   [deepest byte string at nesting depth %d]' % (kw, G.bytes_depth(kw['data'])))
+        real = real_encode(kw)
+        if 'exc' in real:
+            print('  encode raised', real['exc'])
+            print('oracle verdict : VIOLATED')
+            return 1
+        atts = real['atts'] or []
+        print('  encode -> %r + %r' % (real['text'], [a.hex() for a in atts]))
+        okp, d = roundtrip_holds(kw, real, atts)
+        print('  decode + add_attachment x%d -> %r' % (len(atts), d))
+        print('oracle verdict :', 'holds' if okp else 'VIOLATED (decode(encode(p)) != p)')
+        return 0 if okp else 1
     print(json.dumps(r, indent=1))
     return 0
